@@ -486,6 +486,10 @@ func nextTopicLevel(topic []byte) ([]byte, []byte, error) {
 				return nil, nil, fmt.Errorf("memtopics/nextTopicLevel: Cannot publish to $ topics")
 			}
 
+			if s == stateMWC || s == stateSWC {
+				return nil, nil, fmt.Errorf("memtopics/nextTopicLevel: Wildcard characters '#' and '+' must occupy entire topic level")
+			}
+
 			s = stateSYS
 
 		default:
